@@ -222,6 +222,10 @@ func getPrevSnapshot(testID, snapPath string) (string, int, error) {
 		l := s.Bytes()
 		if !bytes.Equal(l, tid) {
 			lineNumber++
+			// another snapshot: skip its body, one of its lines could be equal to the testID
+			if _, isID := getTestID(l); isID {
+				lineNumber += skipSnapshot(s, nil)
+			}
 			continue
 		}
 		var snapshot strings.Builder
@@ -288,6 +292,10 @@ func updateSnapshot(testID, snapshot, snapPath string) error {
 		updatedSnapFile.Write(b)
 		updatedSnapFile.WriteByte('\n')
 		if !bytes.Equal(b, tid) {
+			// another snapshot: copy its body as is, one of its lines could be equal to the testID
+			if _, isID := getTestID(b); isID {
+				skipSnapshot(s, &updatedSnapFile)
+			}
 			continue
 		}
 
@@ -312,6 +320,24 @@ func overwriteFile(f *os.File, b []byte) error {
 	f.Seek(0, io.SeekStart)
 	_, err := f.Write(b)
 	return err
+}
+
+// skipSnapshot advances the scanner past the body of a snapshot, including its end
+// sequence, and returns the number of lines consumed. The lines are copied to w if not nil.
+func skipSnapshot(s *bufio.Scanner, w *bytes.Buffer) int {
+	lines := 0
+	for s.Scan() {
+		lines++
+		if w != nil {
+			w.Write(s.Bytes())
+			w.WriteByte('\n')
+		}
+		if bytes.Equal(s.Bytes(), endSequenceByteSlice) {
+			break
+		}
+	}
+
+	return lines
 }
 
 func removeSnapshot(s *bufio.Scanner) {
